@@ -6,11 +6,12 @@ use vstd::prelude::*;
 use vstd::std_specs::btree::*;
 use super::sp::*;
 use bytes::Bytes;
-broadcast use super::trusted::group_trusted;
+broadcast use {super::trusted::group_trusted, super::trusted::group_trusted_ext};
 
 pub proof fn lemma_cmap_empty()
     ensures cmap(Map::<Key, Bytes>::empty()) =~= Map::<Seq<u8>, Seq<u8>>::empty(),
 {
+    reveal(cmap);
     assert(Map::<Key, Bytes>::empty().dom().map(|kk: Key| kk@) =~= Set::<Seq<u8>>::empty());
 }
 
@@ -19,6 +20,7 @@ pub proof fn lemma_cmap_key(m: Map<Key, Bytes>, kk: Key)
     ensures
         m.contains_key(kk) ==> cmap(m).contains_key(kk@) && cmap(m)[kk@] == bview(&m[kk]),
 {
+    reveal(cmap);
     if m.contains_key(kk) {
         assert(m.dom().contains(kk));
         assert(m.dom().map(|k2: Key| k2@).contains(kk@));
@@ -31,6 +33,7 @@ pub proof fn lemma_cmap_contains(m: Map<Key, Bytes>, k: Seq<u8>)
     ensures
         cmap(m).contains_key(k) <==> (exists|kk: Key| #[trigger] m.contains_key(kk) && kk@ == k),
 {
+    reveal(cmap);
     if cmap(m).contains_key(k) {
         let kk = choose|kk: Key| m.dom().contains(kk) && kk@ == k;
         assert(m.contains_key(kk) && kk@ == k);
